@@ -220,6 +220,18 @@ def run(ctx: Ctx) -> None:
                 "('full' promises a byte-identical copy)"], "record-without-copy", what="under the full commit the data copy can be skipped while the record is rewritten")
     rep.floor("C19.R8", n8, 1)
 
+    # ---- R10 / R11 -------------------------------------------------------------------------------------------------
+    from .common import find_api_functions
+    from .c04 import commit_rules
+    from .storerules import every_path_processed
+    rep.rule("C19.R10", "as C04.R1: the complete path map is committed on every evaluation, also when the blob is already stored (kept earlier under commit "
+                        "type 'none', or the data directory was emptied)")
+    top_, _n_ = find_api_functions(ctx)
+    commit_rules(ctx, top_, "C19.R10")
+    rep.rule("C19.R11", "every path of a commit batch gets its record / copy (no early exit from the loop of sync_paths)")
+    n11 = every_path_processed(ctx, "C19.R11")
+    rep.floor("C19.R11", n11, 2)
+
     # ---- R7: one copy location per path ----------------------------------------------------------------------------
     from .storerules import uri_join_keeps_names
     rep.rule("C19.R7", "as C08.R7: the URI join removes separator syntax only, so the copies of '/.a/b' and '/a/b' do not overwrite each other")
@@ -305,6 +317,22 @@ def run(ctx: Ctx) -> None:
                             rep.bad("C19.R2", init.qname, desc, init.loc(elt), [f"{old!r} -> {c.qname} whose reference is {new!r}"], f"alias:{old}",
                                     what=f"legacy reference {old} is decoded with the {new} codec")
     rep.floor("C19.R2", n2, 3)
+    # every alias of the list is registered: the store into the reference table sits inside the loop and uses the loop's variables
+    if init is not None:
+        for n in init.own_nodes():
+            if isinstance(n, ast.For) and isinstance(n.iter, (ast.List, ast.Tuple)) and any(isinstance(e_, ast.Tuple) and e_.elts and const_str(e_.elts[0]) is not None for e_ in n.iter.elts):
+                tv = {x.id for x in ast.walk(n.target) if isinstance(x, ast.Name)}
+                inside = [st for st in ast.walk(ast.Module(body=n.body, type_ignores=[])) if isinstance(st, ast.Assign) and any(isinstance(t, ast.Subscript) for t in st.targets)
+                          and tv <= {x.id for x in ast.walk(st) if isinstance(x, ast.Name)}]
+                desc = f"each of the {len(n.iter.elts)} legacy aliases is registered (the table store is in the loop body and uses both loop variables)"
+                if inside:
+                    rep.ok("C19.R2", init.qname, desc, init.loc(inside[0]))
+                else:
+                    after = [st for st in init.own_nodes() if isinstance(st, ast.Assign) and any(isinstance(t, ast.Subscript) for t in st.targets)
+                             and tv & {x.id for x in ast.walk(st) if isinstance(x, ast.Name)} and st.lineno > n.lineno]
+                    rep.bad("C19.R2", init.qname, desc, init.loc(n), [f"{init.loc(n)}: the loop body registers nothing"] + [
+                        f"{init.loc(st)}: `{unparse(st, 70)}` runs once, after the loop, with the last alias only" for st in after[:2]] + [
+                        "blobs whose metadata names one of the other legacy references fail with PROTOCOL_NOT_FOUND"], "alias-loop", what="only the last legacy alias is registered")
 
     # ---- R6: the aliases stay registered -------------------------------------------------------------------------
     rep.rule("C19.R6", "legacy aliases are item stores into the registry's reference table from outside the registry class: no registry method "
